@@ -44,10 +44,14 @@ func runC17(c *Ctx) {
 	want := []string{"controllerrevisions.List", "controllerrevisions.Update", "statefulsets.apps.Delete", "statefulsets.pingcap.Create", "statefulsets.pingcap.Get", "statefulsets.pingcap.Update", "statefulsets.pingcap.UpdateStatus"}
 	c.Check(strings.Join(ks, " ") == strings.Join(want, " "), "C17.1-effect-whitelist", "Upgrade transitive effects", fi.Decl.Pos(),
 		"exactly "+strings.Join(want, ", "), "the upgrade helper's effect set is {"+strings.Join(ks, ", ")+"}")
-	site := func(res, verb string) *eff.Site {
-		var out *eff.Site
-		for _, s := range c.G.Sites {
-			if s.Fn == fi.Obj && s.Resource == res && s.Verb == verb {
+	// the sites, each with the call in Upgrade's own body that leads to it (a site may sit in a small
+	// helper that the engine expands into Upgrade)
+	lifted := c.sitesOf(fi)
+	site := func(res, verb string) *LiftedSite {
+		var out *LiftedSite
+		for i := range lifted {
+			s := &lifted[i]
+			if s.Resource == res && s.Verb == verb {
 				if out != nil {
 					c.Bad("C17.1-effect-whitelist", "Upgrade: second "+res+"."+verb, s.Call.Pos(), "more than one site of this effect")
 				}
@@ -66,7 +70,7 @@ func runC17(c *Ctx) {
 		return
 	}
 	entry := fi.Decl.Body.List[0]
-	stmt := func(s *eff.Site) ast.Stmt { return stmtOf(fi.Decl.Body, s.Call) }
+	stmt := func(s *LiftedSite) ast.Stmt { return stmtOf(fi.Decl.Body, s.Top) }
 	// C17.2 order
 	mustPass := func(name string, stops ...ast.Node) {
 		aU := fn.FromUntil(entry, gf.TrueState(), stops...)
@@ -76,9 +80,9 @@ func runC17(c *Ctx) {
 	mustPass("create-or-update of the Advanced set", stmt(create), stmt(update))
 	mustPass("UpdateStatus", stmt(ustatus))
 	mustPass("the revision List", stmt(list))
-	for _, s := range []*eff.Site{create, update, ustatus, relabel, list} {
+	for _, s := range []*LiftedSite{create, update, ustatus, relabel, list} {
 		st := stmt(s)
-		errF := c.errNonNilAfter(fn, st, s.Call)
+		errF := c.errNonNilAfter(fn, st, s.Top)
 		name := fmt.Sprintf("Upgrade: built-in Delete after failed %s.%s", s.Resource, s.Verb)
 		if errF == nil {
 			c.Unk("C17.2-delete-only-after-success", name, s.Call.Pos(), "the call's error is not bound")
@@ -87,15 +91,22 @@ func runC17(c *Ctx) {
 		aE := fn.FromAfter(st, an.StateAfter(st).Assume(errF))
 		c.Check(!aE.StateAtExpr(del.Call).Reachable(), "C17.2-delete-only-after-success", name, s.Call.Pos(), "unreachable when this call failed", "the built-in StatefulSet can be deleted although this call failed")
 	}
-	// the relabel loop precedes the Get (top-level order) and covers all listed items
-	loop, _ := innermostLoop(fi.Decl.Body, relabel.Call).(*ast.RangeStmt)
+	// the relabel loop precedes the Get (top-level order) and covers all listed items; the List and the
+	// loop may both sit in one helper, which is then the host of the loop
+	host, hostFn := fi, fn
+	if relabel.Helper != nil {
+		host, hostFn = relabel.Helper, c.E.FnOf(relabel.Helper)
+	}
+	loop, _ := innermostLoop(host.Decl.Body, relabel.Call).(*ast.RangeStmt)
 	okLoop := false
 	var item *ast.Ident
-	if loop != nil && topIndex(fi.Decl.Body, loop) >= 0 && fi.Decl.Body.List[topIndex(fi.Decl.Body, loop)] == ast.Stmt(loop) && topIndex(fi.Decl.Body, loop) < topIndex(fi.Decl.Body, get.Call) {
+	sameHost := list.Helper == relabel.Helper
+	if loop != nil && sameHost && topIndex(host.Decl.Body, loop) >= 0 && host.Decl.Body.List[topIndex(host.Decl.Body, loop)] == ast.Stmt(loop) &&
+		topIndex(fi.Decl.Body, relabel.Top) >= 0 && topIndex(fi.Decl.Body, relabel.Top) < topIndex(fi.Decl.Body, get.Top) {
 		// ranges over <list result>.Items
 		if sel, ok := ast.Unparen(loop.X).(*ast.SelectorExpr); ok && sel.Sel.Name == "Items" {
-			if as, ok := stmtOf(fi.Decl.Body, list.Call).(*ast.AssignStmt); ok {
-				if fn.Term(sel.X).Key() == fn.Term(as.Lhs[0]).Key() {
+			if as, ok := stmtOf(host.Decl.Body, list.Call).(*ast.AssignStmt); ok {
+				if hostFn.Term(sel.X).Key() == hostFn.Term(as.Lhs[0]).Key() {
 					okLoop = true
 				}
 			}
@@ -104,13 +115,13 @@ func runC17(c *Ctx) {
 	}
 	c.Check(okLoop && item != nil, "C17.2-relabel-all-revisions", "Upgrade: relabel loop", relabel.Call.Pos(), "a top-level loop over every listed revision, before the Advanced set is read", "the relabel loop does not cover every listed ControllerRevision before the upgrade proceeds")
 	if okLoop && item != nil {
-		c.relabelBody(fi, fn, loop, item, relabel)
+		c.relabelBody(host, hostFn, loop, item, relabel.Site)
 	}
 	// C17.3 orphan propagation
-	c.orphanPolicy(fi, fn, del)
+	c.orphanPolicy(fi, fn, del.Site)
 	// C17.4 create-or-update
 	getStmt := stmt(get)
-	getErr := c.errNonNilAfter(fn, getStmt, get.Call)
+	getErr := c.errNonNilAfter(fn, getStmt, get.Top)
 	var getErrID *ast.Ident
 	if as, ok := getStmt.(*ast.AssignStmt); ok {
 		getErrID, _ = as.Lhs[len(as.Lhs)-1].(*ast.Ident)
@@ -131,17 +142,19 @@ func runC17(c *Ctx) {
 			}
 			return true
 		})
-		var cond *gf.Formula
-		if nfVar != nil {
-			cond = gf.FBool(fn.Term(nfVar))
-		} else {
-			cond = notFound
-		}
-		fn.KeepDead = true
-		anK := fn.Analyze(nil)
-		fn.KeepDead = false
-		c.Implies(anK.StateAtExpr(create.Call), cond, "C17.4-create-or-update", "Upgrade: Create", create.Call.Pos())
-		c.Implies(anK.StateAtExpr(update.Call), gf.Not(cond), "C17.4-create-or-update", "Upgrade: Update", update.Call.Pos())
+		_ = nfVar
+		// decided on paths from the Get: with an error that is not NotFound (or none) the Create is
+		// unreachable, with a NotFound error the Update is (however the code remembers the outcome)
+		after := an.StateAfter(getStmt)
+		errT := fn.Term(getErrID)
+		aOther := fn.FromAfter(getStmt, after.Assume(gf.Not(notFound)))
+		c.Check(!aOther.StateAtExpr(create.Call).Reachable(), "C17.4-create-or-update", "Upgrade: Create", create.Call.Pos(),
+			"unreachable unless the Get reported NotFound", "the Advanced set can be created although the Get did not report NotFound")
+		aNF := fn.FromAfter(getStmt, after.Assume(gf.And(notFound, gf.FNotNil(errT))))
+		c.Check(!aNF.StateAtExpr(update.Call).Reachable(), "C17.4-create-or-update", "Upgrade: Update", update.Call.Pos(),
+			"unreachable when the Get reported NotFound", "the Advanced set can be updated although the Get reported NotFound (a nil object is sent)")
+		c.Check(aNF.StateAtExpr(create.Call).Reachable(), "C17.4-create-or-update", "Upgrade: Create reachable", create.Call.Pos(),
+			"reached when the Get reported NotFound", "a missing Advanced set is never created")
 	}
 	// status copied before UpdateStatus: X.Status = <converted>.Status where X is the object sent
 	sent := ustatus.Call.Args[1]
@@ -166,11 +179,17 @@ func runC17(c *Ctx) {
 	}
 	c.Check(okCopy, "C17.4-status-copied", "Upgrade: UpdateStatus", ustatus.Call.Pos(), "the built-in set's status is copied onto the object before UpdateStatus on every path", "UpdateStatus can be sent without the built-in set's status copied onto the object")
 	// spec: create from the converted object, update sets Spec from it
-	c.specCopied(fi, fn, conv, create, update)
+	c.specCopied(fi, fn, conv, create.Site, update.Site)
 	// C17.5 error discipline restricted to Upgrade
 	var scopes []errScope
+	helpers := map[*load.FuncInfo]bool{}
+	for _, ls := range lifted {
+		if ls.Helper != nil {
+			helpers[ls.Helper] = true
+		}
+	}
 	for _, sc := range c.errorDisciplineScopes() {
-		if sc.fi == fi {
+		if sc.fi == fi || helpers[sc.fi] {
 			scopes = append(scopes, sc)
 		}
 	}
